@@ -290,6 +290,86 @@ def float_spec_long(pid, tier, rng):
                 break
     return viols, {"float_spec_long_cases": len(cases), "float_spec_long_steps": sum(c[1] for c in cases)}
 
+# ---------------------------------------------------------------------------------- every window length
+SWEEP_VIEWS = {"C02": ["Sma", "Cumulative", "Min", "Max", "Welford", "WelfordMean", "WelfordVar", "Hln", "Roc", "Entropy", "Vst", "Vsct"],
+               "C04": ["Sma", "Ema", "Alma"], "C05": ["Rsi", "MyRsi"], "C06": ["Cti", "Net", "Cog"],
+               "C11": ["Ss", "Roofing", "Lrsi", "Cyber", "TrendFlex", "ReFlex", "Eft", "Pfe"],
+               "C08": ["Sma", "Ema", "Ss", "Rsi", "MyRsi", "Roofing", "Welford", "Vst", "Vsct"],       # documented warm-up lengths, at every N
+               "C09": ["Ema", "Ss", "Roofing", "Cyber", "TrendFlex", "ReFlex", "Lrsi", "Eft"]}         # coefficients of every recursive view, at every N
+SWEEP_QUADRATIC = {"Net", "Cti", "Alma", "TrendFlex", "ReFlex", "Pfe", "Eft", "Cog", "Rsi", "MyRsi", "Hln", "Vst", "Vsct", "Welford", "WelfordVar", "WelfordMean", "Min", "Max", "Entropy", "Sma", "Cumulative", "Roc"}
+def _sweep_eval(job):
+    """(descriptor, float inputs) -> batch specification evaluated at binary64 (runs in a worker process)"""
+    d, xs = job
+    f = O.spec_for(d)
+    if f is None:
+        return "spec-error: no batch specification for this descriptor"
+    try:
+        return SP.at_float(f, xs)
+    except (ZeroDivisionError, ValueError, OverflowError) as e:
+        return "spec-error: %s" % e
+
+def every_n_sweep(pid, tier, rng):
+    """EVERY window length from the view's minimum to 130 (and 200, 257, 500, 1000 where the specification is cheap): a short f64 run
+    against the batch specification evaluated at binary64.  A coefficient, lag, warm-up or eviction rule that is wrong only for particular
+    window lengths (odd ones, those above a threshold, one where an identity fails) cannot hide between the lengths a random choice happens to hit."""
+    names = SWEEP_VIEWS.get(pid)
+    if not names:
+        return [], {}
+    from multiprocessing import Pool
+    cases = []
+    for name in names:
+        lo = {"Roofing": 2, "Cyber": 6, "Eft": 2, "Pfe": 3}.get(name, 1)
+        ns = list(range(lo, 131))
+        if name in ("Net", "Cti"):
+            ns = list(range(lo, 41)) + [48, 63, 64, 65, 100, 127, 128, 129]
+        elif name not in ("TrendFlex", "ReFlex", "Pfe", "Eft", "Alma"):
+            ns += [200, 257, 500, 1000]
+        for n in ns:
+            if name == "Roofing":
+                d = ("Roofing", n, 1 + (n % 5), E)
+            elif name in ("Eft", "Pfe"):
+                d = (name, n, E, [("Ema", 1, E), ("Ema", 3, E), ("Sma", 2, E)][n % 3])
+            else:
+                d = (name, n, E)
+            L = (n + 40) if n > 60 else (2 * n + 40)
+            if name == "Alma":
+                L = 2 * n + 40
+            seed = rng.below(2 ** 40) + 1
+            xs = [F(c, 4) for c in lcg_walk(L, seed)]
+            if name == "Entropy":
+                xs = [x - 500 for x in xs]
+            cases.append(Case(d, [("v", 0, x) for x in xs], {"view": name, "regime": "every-n", "mode": "f64", "model": False}))
+    run_impl(cases, mode="f64", profile="release")
+    jobs = [(c.desc, [float(x) for x in c.inputs()]) for c in cases]
+    with Pool(NPROC) as pool:
+        exps = pool.map(_sweep_eval, jobs, chunksize=8)
+    viols, seen = [], set()
+    for c, exp in zip(cases, exps):
+        name = c.desc[0]
+        if name in seen:
+            continue
+        if isinstance(exp, str):
+            viols.append(O.viol("every-n-" + name.lower(), "%s: the batch specification could not be evaluated (%s)" % (d_sexpr(c.desc), exp), [], desc=d_sexpr(c.desc)))
+            seen.add(name)
+            continue
+        value_like = name in ("Sma", "Cumulative", "Min", "Max", "Welford", "WelfordMean", "WelfordVar", "Ema", "Alma", "Ss", "Vst")
+        for t, (e, b) in enumerate(zip(exp, c.obs)):
+            if e == "skip":
+                continue
+            g = None if b.kind == "N" else (O.f64_of_bits(b.val) if b.kind == "S" else b.kind)
+            if g is None and name in ("Welford", "Vst", "Vsct") and t + 1 == c.desc[1] - 1:
+                continue
+            sc = max(1.0, abs(e) if isinstance(e, float) else 1.0, (1000.0 * (c.desc[1] if name == "Cumulative" else 1)) if value_like else 1.0)
+            if name == "WelfordVar":
+                sc = 1e6
+            ok = (e is None and g is None) or (isinstance(e, float) and isinstance(g, float) and abs(e - g) <= 1e-6 * sc)
+            if not ok:
+                viols.append(O.viol("every-n-" + name.lower(), "%s at update %d reports %s (f64), its batch specification evaluated at binary64 gives %s [sweep over every window length]"
+                                    % (d_sexpr(c.desc), t + 1, g, e), [c] if len(c.ops) < 400 else [], desc=d_sexpr(c.desc), step=t + 1))
+                seen.add(name)
+                break
+    return viols, {"every_n_cases": len(cases), "every_n_window_lengths": "min..130" + " (+200, 257, 500, 1000 for O(1)-per-update specifications)"}
+
 def finish(pid, tag, cases, oracle_viols, rule, extra=None):
     cv, st = corr_violations(pid, tag, cases)
     if pid in ("C01", "C08", "C15", "C17", "C18"):
@@ -306,6 +386,9 @@ def finish(pid, tag, cases, oracle_viols, rule, extra=None):
         lv, lst = float_spec_long(pid, _SEED[1], Rng(_SEED[0] * 15485863 + int(pid[1:])))
         viols += lv
         st.update(lst)
+        ev_, est = every_n_sweep(pid, _SEED[1], Rng(_SEED[0] * 32452843 + int(pid[1:])))
+        viols += ev_
+        st.update(est)
     if pid in ("C02", "C04", "C05", "C06", "C10", "C11", "C13"):
         sv, sst = coq_spec_check(pid, [c for c in cases if c.meta.get("model", True)])
         keys = {v[0] for v in viols}
@@ -326,7 +409,7 @@ def finish(pid, tag, cases, oracle_viols, rule, extra=None):
     cov.update(st)
     # evaluations = every execution of the implementation in this run; the exact-scalar cases (the ones also run through the model) are counted separately
     mult = {"f64_cases": 1, "long_f64_runs": 1, "fading_pairs": 2, "f64_vs_exact_runs": 2, "f32_runs": 2, "float_cases_bit_exact": 1, "f64_pow2_pairs": 2,
-            "f64_chain_groups": 3, "heap_measurements": 1, "f64_schedules": 1, "coq_spec_cases": 0, "float_long_cases_hashed": 1, "dense_f64_vs_exact_runs": 3, "float_spec_long_cases": 1, "long_prefix_pairs": 2}
+            "f64_chain_groups": 3, "heap_measurements": 1, "f64_schedules": 1, "coq_spec_cases": 0, "float_long_cases_hashed": 1, "dense_f64_vs_exact_runs": 3, "float_spec_long_cases": 1, "long_prefix_pairs": 2, "every_n_cases": 1}
     cov["evaluations_exact_scalar_with_model"] = cov["evaluations"]
     cov["evaluations"] = cov["evaluations"] + sum(mult[k_] * int(cov.get(k_, 0)) for k_ in mult if isinstance(cov.get(k_, 0), int))
     return {"coverage": cov, "violations": viols}
